@@ -30,7 +30,7 @@ pub fn run(sim: &Sim, _idx: u64) {
         let shape = sim.pick(&[0usize, 0, 2, 2, 3, 1]);
         let mut p = c02::gen_plan(sim, i as u64 + 1, shape, 3000);
         p.script.latency_us = sim.pick(&[0u64, 1_000, 30_000, 100_000]);
-        p.script.gap_us = if shape >= 2 { sim.pick(&[0u64, 5_000, 20_000]) } else { 0 };
+        p.script.gap_us = if shape >= 2 { sim.pick(&[0u64, 5_000, 20_000, 100_000]) } else { 0 };
         p.extra_polls = 0;
         plans.push((sim.draw(m as u64) as usize, sim.pick(&[0u64, 0, 5_000, 40_000, 80_000]), p));
     }
@@ -48,6 +48,21 @@ pub fn run(sim: &Sim, _idx: u64) {
     // *ends* instead of the signal firing (a graceful server still drains)
     let accept_errors: Vec<u64> = if sim.chance(1, 4) { (0..sim.range(1, 3)).map(|_| sim.pick(&[0u64, 500, 20_000, 60_000, 150_000])).collect() } else { vec![] };
     let end_incoming_instead = !edge && sim.chance(1, 5);
+    // server knobs that must not weaken the drain: a request timeout (bounds the time to the
+    // response *headers* only; handler latencies stay below it) and a maximum connection age (the
+    // server gracefully retires a connection of that age; its accepted calls still complete and
+    // the serve future still waits for it)
+    let sopts = ServerOpts {
+        timeout: sim.pick(&[None, None, Some(Duration::from_millis(150))]),
+        max_connection_age: sim.pick(&[None, None, None, Some(Duration::from_millis(20)), Some(Duration::from_millis(60))]),
+        ..Default::default()
+    };
+    if sopts.timeout.is_some() {
+        sim.fault("server-request-timeout-configured");
+    }
+    if sopts.max_connection_age.is_some() {
+        sim.fault("server-max-connection-age-configured");
+    }
     sim.nontrivial();
     sim.sample(|| {
         format!(
@@ -56,7 +71,7 @@ pub fn run(sim: &Sim, _idx: u64) {
             plans.iter().map(|(c, off, p)| format!("conn{c}@{off}us {} latency={}us gap={}us resp={} end={:?}", c02::SHAPES[p.shape], p.script.latency_us, p.script.gap_us, p.script.msgs.len(), p.script.end.as_ref().map(|e| e.code))).collect::<Vec<_>>()
         )
     });
-    sim.ev(|| format!("config: connections={m} keep_channels={keep_channels} by_event={by_event} sig_at_us={sig_at_us} sig_after_entries={sig_after_entries} edge={edge} accept_errors={accept_errors:?} end_incoming_instead={end_incoming_instead}"));
+    sim.ev(|| format!("config: connections={m} keep_channels={keep_channels} by_event={by_event} sig_at_us={sig_at_us} sig_after_entries={sig_after_entries} edge={edge} accept_errors={accept_errors:?} end_incoming_instead={end_incoming_instead} server_timeout={:?} max_connection_age={:?}", sopts.timeout, sopts.max_connection_age));
 
     let out = run_sim(sim, Duration::from_secs(100_000), || async {
         let (net, connector, rx) = net_and_connector(sim, netcfg, vec![]);
@@ -115,7 +130,7 @@ pub fn run(sim: &Sim, _idx: u64) {
             });
         }
         let incoming = tokio_stream::wrappers::UnboundedReceiverStream::new(inc_rx);
-        let srv = spawn_server_incoming(&handler, &no_comp(), &ServerOpts::default(), incoming, Some(async move {
+        let srv = spawn_server_incoming(&handler, &no_comp(), &sopts, incoming, Some(async move {
             let _ = sig_rx.await;
         }), hook);
         // record the virtual instant at which the serve future resolves
